@@ -14,7 +14,7 @@ META = {
     "bounds": "n=2 (n=3 in the thorough tier), ncols<=2, batch extents <=2; leaves (matrix entries of A, the Cholesky-type "
               "factor behind M, E, B) and cotangents fully symbolic, real and complex; first order for every configuration, second "
               "order (gradient of a contraction of the first-order gradients) for the core ones",
-    "outside": "backward solves by an iterative method (the adjoint system handed to it is the one checked here; its "
+    "outside": "second derivatives taken twice w.r.t. the factor of M (mixed ones are covered); backward solves by an iterative method (the adjoint system handed to it is the one checked here; its "
                "convergence is C01's claim), n>3, float32, rounding",
     "assumptions": ["A - e_j M nonsingular", "M = L L^H with positive diagonal (planted Cholesky factor); M's gradient is compared at "
                     "the leaves behind this symmetric parametrisation"],
@@ -25,7 +25,15 @@ def _H(m):
     return m.transpose(-2, -1).conj()
 
 
-def _mk_M_leaves(cx, n, complex_):
+def _mk_M_leaves(cx, n, complex_, concrete=False):
+    if concrete:
+        # M fixed at one SPD point (its factor still is an autograd leaf): keeps second-order claims within reach
+        vals = torch.tensor([[0.0, 0.0, 0.0], [0.5, 0.0, 0.0], [-0.25, 0.75, 0.0]], dtype=torch.float64)[:n, :n]
+        if complex_:
+            vals = vals + 1j * torch.tensor([[0.0, 0.0, 0.0], [0.25, 0.0, 0.0], [0.5, -0.5, 0.0]], dtype=torch.float64)[:n, :n]
+        l = cx.const(vals, dtype=vals.dtype).requires_grad_()
+        ld = cx.const(torch.tensor([1.0, 1.5, 0.75], dtype=torch.float64)[:n]).requires_grad_()
+        return l, ld
     l = cx.sym("l", (n, n), complex_=complex_, requires_grad=True)
     ld = cx.sym("ld", (n,), positive=True, lo=0.5, hi=2, requires_grad=True)
     return l, ld
@@ -60,8 +68,15 @@ def closed_form(A, B, E=None, M=None, **kw):
 
 
 def gradient(cx, n=2, ncols=1, method="custom_exactsolve", opkind="dense", withE=False, withM=False, complex_=False,
-             second=False, bck_method=None, batchB=()):
-    mats = [cx.sym("a%d" % i, (n, n), complex_=complex_, requires_grad=True) for i in range(nmats(opkind))]
+             second=False, bck_method=None, batchB=(), concreteM=False, concreteA=False):
+    if concreteA:
+        # A fixed at one (non-symmetric, non-singular) point; it still is an autograd leaf
+        av = torch.tensor([[1.5, -0.5, 0.25], [0.75, 2.0, -1.0], [0.5, 0.25, 1.25]], dtype=torch.float64)[:n, :n]
+        if complex_:
+            av = av + 1j * torch.tensor([[0.5, 0.25, -0.5], [-0.75, 0.0, 0.5], [0.25, 1.0, -0.25]], dtype=torch.float64)[:n, :n]
+        mats = [cx.const(av * (i + 1), dtype=av.dtype).requires_grad_() for i in range(nmats(opkind))]
+    else:
+        mats = [cx.sym("a%d" % i, (n, n), complex_=complex_, requires_grad=True) for i in range(nmats(opkind))]
     leaves = list(mats)
     use_mats = mats
     if opkind.startswith("herm"):
@@ -74,7 +89,7 @@ def gradient(cx, n=2, ncols=1, method="custom_exactsolve", opkind="dense", withE
         leaves.append(E)
     M = Mop = None
     if withM:
-        l, ld = _mk_M_leaves(cx, n, complex_)
+        l, ld = _mk_M_leaves(cx, n, complex_, concrete=concreteM)
         leaves += [l, ld]
         M = _M_from(cx, l, ld)
         Mop = LinearOperator.m(M, is_hermitian=True)
@@ -89,7 +104,11 @@ def gradient(cx, n=2, ncols=1, method="custom_exactsolve", opkind="dense", withE
     X = solve(A, B, E, Mop, **kw)
     Xr = _reference(Amat, B, E, M)
     cx.claim_eq("X", X, Xr)
-    G = cx.sym("g", tuple(X.shape), complex_=complex_)
+    if concreteM and second:
+        gv = torch.tensor([((3 * k) % 7 - 3) / 2.0 for k in range(X.numel())], dtype=torch.float64).reshape(tuple(X.shape))
+        G = cx.const(gv + (0.5j if complex_ else 0.0), dtype=torch.complex128 if complex_ else torch.float64)
+    else:
+        G = cx.sym("g", tuple(X.shape), complex_=complex_)
     loss = (G.conj() * X).sum().real if complex_ else (G * X).sum()
     lossr = (G.conj() * Xr).sum().real if complex_ else (G * Xr).sum()
     g1 = grads(loss, leaves, create_graph=second)
@@ -100,11 +119,21 @@ def gradient(cx, n=2, ncols=1, method="custom_exactsolve", opkind="dense", withE
     if second:
         ga1 = zero_if_none(g1, leaves)
         ga2 = zero_if_none(g2, leaves)
-        W = [cx.sym("w%d" % i, tuple(lf.shape), complex_=complex_) for i, lf in enumerate(leaves)]
+        # the second-order contraction uses fixed rational weights (fewer symbols; the identity stays symbolic in
+        # every leaf and in the first-order cotangent)
+        W = []
+        for i, lf in enumerate(leaves):
+            vals = torch.tensor([((7 * i + 3 * k) % 11 - 5) / 4.0 for k in range(lf.numel())], dtype=torch.float64)
+            if complex_:
+                vals = vals + 1j * torch.tensor([((5 * i + 2 * k) % 7 - 3) / 4.0 for k in range(lf.numel())], dtype=torch.float64)
+            W.append(cx.const(vals.reshape(tuple(lf.shape)), dtype=vals.dtype))
         c1 = sum(((w.conj() * g).sum().real if complex_ else (w * g).sum()) for w, g in zip(W, ga1))
         c2 = sum(((w.conj() * g).sum().real if complex_ else (w * g).sum()) for w, g in zip(W, ga2))
-        h1 = grads(c1, leaves)
-        h2 = grads(c2, leaves)
+        # with M, the contraction (which contains the first-order gradients w.r.t. M's factor) is differentiated
+        # w.r.t. A, B, E only: d2/d(factor)^2 is beyond the solver's reach (stated in the bounds)
+        nsecond = len(leaves) - 2 if withM else len(leaves)
+        h1 = grads(c1, leaves[:nsecond])
+        h2 = grads(c2, leaves[:nsecond])
         for nm, x, y in zip(names, h1, h2):
             cx.claim_eq("d2/d" + nm, x, y)
     return "ok"
@@ -160,15 +189,21 @@ def configs(tier):
     for method in ("exactsolve", "custom_exactsolve", "closed_form"):
         for em in ("A", "AE", "AEM"):
             add("grad/%s/dense/%s/n2c1/2nd" % (method, em), gradient, n=2, ncols=1, method=method, opkind="dense",
-                withE=em != "A", withM=em == "AEM", second=True)
+                withE=em != "A", withM=em == "AEM", second=True, concreteM=True)
+            if em == "AEM":
+                add("grad/%s/dense/AEM/n2c1" % method, gradient, n=2, ncols=1, method=method, opkind="dense", withE=True,
+                    withM=True)
     add("grad/custom_exactsolve/dense/AEM/n2c2", gradient, n=2, ncols=2, method="custom_exactsolve", opkind="dense", withE=True,
         withM=True)
-    add("grad/closed_form/dense/AEM/n2c1/complex", gradient, n=2, ncols=1, method="closed_form", opkind="dense", withE=True,
-        withM=True, complex_=True)
-    add("grad/custom_exactsolve/dense/AE/n2c1/complex/2nd", gradient, n=2, ncols=1, method="custom_exactsolve", opkind="dense",
-        withE=True, complex_=True, second=True)
-    add("grad/exactsolve/dense/AEM/n2c1/complex", gradient, n=2, ncols=1, method="exactsolve", opkind="dense", withE=True,
-        withM=True, complex_=True)
+    add("grad/custom_exactsolve/dense/AE/n2c1/complex", gradient, n=2, ncols=1, method="custom_exactsolve", opkind="dense",
+        withE=True, complex_=True)
+    add("grad/custom_exactsolve/dense/A/n2c1/complex/2nd", gradient, n=2, ncols=1, method="custom_exactsolve", opkind="dense",
+        complex_=True, second=True)
+    # second order through the custom backward with operators that are NOT linear in their parameters
+    add("grad/custom_exactsolve/matmul/A/n2c1/2nd", gradient, n=2, ncols=1, method="custom_exactsolve", opkind="matmul", second=True)
+    add("grad/closed_form/matmul/AE/n2c1/2nd", gradient, n=2, ncols=1, method="closed_form", opkind="matmul", withE=True, second=True)
+    add("grad/custom_exactsolve/nonlinear/A/n2c1/2nd", gradient, n=2, ncols=1, method="custom_exactsolve", opkind="nonlinear",
+        second=True)
     for opkind in ("mvonly", "mvrmv", "mvmm", "all", "herm", "herm_mv", "add", "sub", "mul", "matmul", "adjoint", "add_dense"):
         add("grad/custom_exactsolve/%s/AE/n2c1" % opkind, gradient, n=2, ncols=1, method="custom_exactsolve", opkind=opkind,
             withE=True)
@@ -184,6 +219,12 @@ def configs(tier):
     add("noinfluence/exactsolve", no_influence, method="exactsolve")
     if tier == "thorough":
         big = {"budget_s": 1700, "timeout_ms": 60000}
+        add("grad/closed_form/dense/AEM/n2c1/complex/Afixed", gradient, n=2, ncols=1, method="closed_form", opkind="dense",
+            withE=True, withM=True, complex_=True, concreteA=True, opts=big)
+        add("grad/custom_exactsolve/dense/AEM/n2c1/complex/Mfixed", gradient, n=2, ncols=1, method="custom_exactsolve",
+            opkind="dense", withE=True, withM=True, complex_=True, concreteM=True, opts=big)
+        add("grad/exactsolve/dense/AEM/n2c1/complex/Afixed", gradient, n=2, ncols=1, method="exactsolve", opkind="dense",
+            withE=True, withM=True, complex_=True, concreteA=True, opts=big)
         add("grad/custom_exactsolve/dense/AEM/n3c1", gradient, n=3, ncols=1, method="custom_exactsolve", opkind="dense", withE=True,
             withM=True, opts=big)
         add("grad/closed_form/dense/AE/n3c2", gradient, n=3, ncols=2, method="closed_form", opkind="dense", withE=True, opts=big)
@@ -191,8 +232,10 @@ def configs(tier):
             opts=big)
         add("grad/custom_exactsolve/dense/AEM/n2c2/2nd", gradient, n=2, ncols=2, method="custom_exactsolve", opkind="dense",
             withE=True, withM=True, second=True, opts=big)
-        add("grad/closed_form/dense/AEM/n2c1/complex/2nd", gradient, n=2, ncols=1, method="closed_form", opkind="dense", withE=True,
-            withM=True, complex_=True, second=True, opts=big)
+        add("grad/closed_form/dense/AEM/n2c1/complex", gradient, n=2, ncols=1, method="closed_form", opkind="dense", withE=True,
+            withM=True, complex_=True, opts=big)
+        add("grad/custom_exactsolve/dense/AE/n2c1/complex/2nd", gradient, n=2, ncols=1, method="custom_exactsolve", opkind="dense",
+            withE=True, complex_=True, second=True, opts=big)
         for opkind in ("mvonly", "herm_mv", "add", "matmul"):
             add("grad/custom_exactsolve/%s/AEM/n2c1/complex" % opkind, gradient, n=2, ncols=1, method="custom_exactsolve",
                 opkind=opkind, withE=True, withM=True, complex_=True, opts=big)
